@@ -7,6 +7,16 @@ TRUST = ("TLC 1.8 evaluates the TLA+ judge; harness/lib.py projections (real obj
          "of abstract cases are trusted; bounds as stated in the evidence file")
 
 CHECKS = {
+ "C19": dict(
+    text="Population.tla models the containers (LazyLoadingTrees, NestTrees, ChainTrees, Population, Populations) as a heap of objects with per-container "
+         "cache slots, per-file read counters and the sets of requested / probe-eligible files; every operation is an action. TLC explores every history up "
+         "to the step bound over three directories and checks in every state that each file was read at most once, only on demand (or by the documented "
+         "probe), that every key of every container resolves to the file its flattened contents list there (chains = concatenation in order, slices by "
+         "Python semantics), and - separately - that the code's binary search over prefix sums picks the designated member for every vector of member sizes "
+         "including empty ones. The same exploration (plus simulation and a random driver over other layouts) generates histories; the executor performs "
+         "them on real objects in a scratch directory, counting read-opens of every file with an audit hook, and Trace_Population validates result and reads "
+         "after every step",
+    design="4/C19", technique="TLA+ state machine of the containers explored exhaustively by TLC; generated histories replayed into the code; TLC trace validation of results and per-file read counts after every step"),
  "C18": dict(
     text="Dsu.tla specifies the disjoint-set structure twice: abstractly (the partition, merged by union) and concretely (parent / rank with recursive path "
          "compression and union by rank, as the code does it); TLC explores every history of union / find / same on 4 elements with the union history tracked "
